@@ -323,6 +323,9 @@ func cmdVerify(args []string) (code int) {
 	}
 	for _, s := range sres {
 		byKind[s.Kind]++
+		if os.Getenv("GOCV_STRUCT_DUMP") != "" {
+			fmt.Fprintf(os.Stderr, "  structural %v %s: %s [%s]\n", s.OK, s.Name, s.Text, truncate(s.Detail, 300))
+		}
 		if s.OK {
 			nDis++
 			bySolver["structural"]++
